@@ -460,12 +460,15 @@ class SymExec:
 
     def assign(self, path, dest, val):
         pl, _ = self.place_of(dest)
+        # the place is overwritten: everything derived from its old value is stale
+        keep = getattr(self, "_keep", set())
+        for k in list(path.env):
+            if k in keep:
+                continue
+            if k.startswith(pl + ".") or k == "discr(" + pl + ")" or k.startswith("((" + pl + " as ") or k == "slice_len(" + pl + ")":
+                del path.env[k]
         if val is None:
             path.env.pop(pl, None)
-            # invalidate projections
-            for k in list(path.env):
-                if k.startswith(pl + "."):
-                    del path.env[k]
         else:
             path.env[pl] = val
 
@@ -638,6 +641,9 @@ class SymExec:
                 m = re.match(r"(.*?) = (.*);$", s)
                 if not m:
                     continue
+                if not m.group(2).strip().startswith("&"):
+                    path.env.pop("&" + self.place_of(m.group(1))[0], None)
+                self._keep = set()
                 val = self.rvalue(path, m.group(1), m.group(2))
                 if isinstance(val, str) and val == "TUPLE":
                     path.events.append(("assign", bname, m.group(1).strip(), m.group(2).strip(), None))
@@ -690,6 +696,7 @@ class SymExec:
                     work.append((p2, tg, visits))
             elif k == "call":
                 args = [self.operand(path, a) for a in t["args"]]
+                self._keep = set()
                 path.events.append(("call", bname, t["func"], args, t["args"], t["dest"]))
                 res = self.call_model(self, path, t, args)
                 if res is None:
@@ -726,11 +733,22 @@ class SymExec:
                 path.env[key] = self.fresh(key, "usize")
                 path.cond.append(z3.ULE(path.env[key], z3.BitVecVal((1 << 63) - 1, 64)))   # allocations are <= isize::MAX
             return path.env[key]
-        m = re.match(r"(?:core::)?char::methods::<impl char>::len_utf(8|16)$", t["func"])
+        m = re.match(r"(?:core::)?char::methods::<impl char>::(len|encode)_utf(8|16)$", t["func"])
         if m:
-            v = self.fresh("len_utf" + m.group(1), "usize")
-            path.cond.append(z3.And(z3.UGE(v, z3.BitVecVal(1, 64)), z3.ULE(v, z3.BitVecVal(2 if m.group(1) == "16" else 4, 64))))
-            return v
+            # the number of code units of a char: one symbol per char operand, shared by len_utf16 and encode_utf16
+            ch = re.sub(r"^(move|copy) ", "", t["args"][0]).strip()
+            key = "utf%s_units(%s)" % (m.group(2), ch)
+            if key not in path.env:
+                v = self.fresh(key, "usize")
+                path.env[key] = v
+                path.cond.append(z3.And(z3.UGE(v, z3.BitVecVal(1, 64)), z3.ULE(v, z3.BitVecVal(2 if m.group(2) == "16" else 4, 64))))
+            if m.group(1) == "len":
+                return path.env[key]
+            if t["dest"]:
+                k2 = "slice_len(" + self.place_of(t["dest"])[0] + ")"
+                path.env[k2] = path.env[key]
+                self._keep = {k2}
+            return None
         m = re.match(r"<(Result|Option)<(.*)> as Try>::branch$", t["func"])
         if m and t["dest"] and len(t["args"]) == 1:
             src = self.place_of(re.sub(r"^(move|copy) ", "", t["args"][0]))[0]
